@@ -73,7 +73,7 @@ def run(ctx):
 
 SNIPPET = r'''
 import sys, os, json, hashlib
-sys.path.insert(0, %(tools)r); import common; common.setup_numba_cache()
+sys.path.insert(0, %(tools)r); import common; common.setup_numba_cache(); sys.path.insert(0, common.REPO)
 import numpy as np, ebisim
 from ebisim.simulation import Device, advanced_simulation
 d = Device.get(current=0.15, e_kin=4000., r_e=1e-4, v_ax=150., b_ax=2., r_dt=5e-3, length=0.8, n_grid=60)
@@ -161,6 +161,7 @@ def search(ctx):
             V.append({"key": {"clause": "repeat_basic", "variant": label}, "what": f"repeating basic_simulation(Ar, 3000 eV, {label}) with equal inputs in one process gives different numbers", "input": {"op": "repeat_basic_options", "variant": label}})
     if by.get("plain") and digest(plain0.N, plain0.t) not in by["plain"]:
         V.append({"key": {"clause": "repeat_basic", "variant": "plain-after-options"}, "what": "a plain basic_simulation repeated after runs with a DR width / CNI gives different numbers than before them", "input": {"op": "repeat_basic_options", "variant": "plain"}})
+    fresh_xs(ctx, V)
     ctx.cov["thread_counts"] = threads
     # energy scan: process pool vs sequential, energies given out of order
     kw = dict(element="Ar", j=80., t_max=0.02, dr_fwhm=None, solver_kwargs={"rtol": 1e-6})
@@ -214,10 +215,40 @@ def search(ctx):
     return V
 
 
+SNIPPET_XS = r'''
+import sys, os, hashlib
+sys.path.insert(0, %(tools)r); import common; common.setup_numba_cache(); sys.path.insert(0, common.REPO)
+import numpy as np, ebisim
+h = hashlib.sha256()
+for z, e, w in ((26, 4700., 30.), (18, 2222.2, 15.), (10, 682.53, 8.)):
+    el = ebisim.get_element(z)
+    for a in (el.dr_cs, el.dr_e_res, el.dr_strength, ebisim.drxs_vec(el, e, w), ebisim.eixs_vec(el, e), ebisim.rrxs_vec(el, e)):
+        h.update(np.ascontiguousarray(a).tobytes())
+b = ebisim.basic_simulation(ebisim.get_element("Ar"), 80., 2222.2, 0.02, dr_fwhm=15.)
+h.update(np.ascontiguousarray(b.N).tobytes() + np.ascontiguousarray(b.t).tobytes())
+print("HASH", h.hexdigest())
+'''
+
+
+def fresh_xs(ctx, V):
+    """tables, cross sections and a basic DR run in fresh interpreters started with different string-hash seeds: identical bytes"""
+    outs = {}
+    for seed in ("0", "1", "4242"):
+        env = dict(os.environ); env["PYTHONHASHSEED"] = seed
+        rc, out, dt = common.run([sys.executable, "-c", SNIPPET_XS % {"tools": os.path.join(common.VERIF, "tools")}], timeout=1200, env=env)
+        line = [l for l in out.split("\n") if l.startswith("HASH")]
+        outs[seed] = line[0].split()[1] if line else f"rc={rc} {out[-200:]}"
+        ctx.evaluations += 1
+    ctx.cov["fresh_process_xs_hashes"] = outs
+    if len(set(outs.values())) != 1 or any(v.startswith("rc=") for v in outs.values()):
+        V.append({"key": {"clause": "repeat_fresh_process", "variant": "tables_and_dr"}, "input": {"op": "fresh_xs"},
+                  "what": f"fresh processes (different PYTHONHASHSEED) give different DR tables / cross sections / basic DR results: {outs}"})
+
+
 SNIPPET_ORDER = r'''
 import sys, os, hashlib
 os.environ['NUMBA_CACHE_DIR'] = %(cache)r
-sys.path.insert(0, '/repo')
+sys.path.insert(0, os.environ.get('EBISIM_REPO', '/repo'))
 import numpy as np, ebisim
 from ebisim.simulation import Device, advanced_simulation, ModelOptions
 d = Device.get(current=0.3, e_kin=4000., r_e=1e-4, v_ax=150., b_ax=2., r_dt=5e-3, length=0.8, n_grid=60)
